@@ -7,8 +7,10 @@ use crate::verif_env::clock;
 use serde_bytes::ByteBuf;
 
 //@ ob: C05.O1a
+//@ rss: 0.3
+//@ time: 10
 //@ tier: quick
-//@ cap: 900
+//@ cap: 800
 //@ also: C10
 //@ desc: bytes_to_signed_peer is total on every entry length 0..=210 and accepts exactly 104 bytes, mapping k = bytes[0..32], t = big-endian bytes[32..40], sig = bytes[40..104]; signed_peer_to_bytes is its inverse
 //@ bounds: entry length symbolic 0..=210, contents symbolic; unwind 106
@@ -46,8 +48,10 @@ fn c05_o1a_signed_peer_entry() {
 }
 
 //@ ob: C05.O1b
+//@ rss: 0.3
+//@ time: 7
 //@ tier: quick
-//@ cap: 900
+//@ cap: 800
 //@ also: C10
 //@ desc: bytes_to_sockaddr is total on lengths 0..=20: Ok iff 6 bytes (ip big-endian, port big-endian), 18 bytes -> Ipv6Unsupported, anything else an error; sockaddr_to_bytes is its inverse (compact peer format)
 //@ bounds: length symbolic 0..=20, contents symbolic; unwind 22
@@ -77,7 +81,7 @@ fn c05_o1b_sockaddr() {
 }
 
 //@ ob: C05.O1c
-//@ tier: quick
+//@ tier: thorough
 //@ cap: 1200
 //@ also: C10
 //@ desc: bytes_to_nodes4 is total on lengths {0, 25, 26, 27, 52}: Ok iff a multiple of 26, yielding len/26 nodes with id = bytes[0..20], ip = bytes[20..24], port big-endian bytes[24..26]; nodes4_to_bytes is its inverse
@@ -128,8 +132,10 @@ fn tid_vec(len: usize, b: [u8; 5]) -> Vec<u8> {
 }
 
 //@ ob: C05.O1d
+//@ rss: 0.5
+//@ time: 45
 //@ tier: quick
-//@ cap: 1500
+//@ cap: 800
 //@ also: C10
 //@ desc: Message::from_serde_message on an error message with a transaction id of length 0..=5, optional ip of any 6 bytes, symbolic ro and error code: total; accepted iff the tid has 2 or 4 bytes (big-endian value); ro > 0 means read-only
 //@ bounds: tid length 0..=5 symbolic bytes; ro symbolic Option<i32>; code symbolic i32; unwind 8
@@ -167,7 +173,9 @@ fn c05_o1d_envelope_tid() {
 }
 
 //@ ob: C05.O1e
-//@ tier: quick
+//@ rss: 11.9
+//@ time: 463
+//@ tier: thorough
 //@ cap: 1800
 //@ desc: Message::from_serde_message on a get_signed_peers response whose single peers entry has any length 0..=210, with optional nodes of length {0, 26, 27}: total (no panic, no out-of-bounds); accepted iff the entry has exactly 104 bytes and nodes are a multiple of 26
 //@ bounds: entry length symbolic 0..=210 (zero bytes), nodes length from the stated set; token 4 bytes; unwind 6
@@ -281,7 +289,7 @@ fn c05_o1g_put_presence() {
 }
 
 //@ ob: C10.O1a
-//@ tier: quick
+//@ tier: thorough
 //@ cap: 2400
 //@ mem: 24
 //@ desc: announce_peer encoding: into_serde_message maps implied_port to 1 iff it is Some(true) (None and Some(false) encode 0), keeps port, token and info_hash, writes the transaction id as 4 big-endian bytes and ro = 1 iff read_only
@@ -410,8 +418,10 @@ fn convert_probe(msg: internal::DHTMessage) -> Result<Message, DecodeMessageErro
 }
 
 //@ ob: C10.O3
+//@ rss: 0.6
+//@ time: 68
 //@ tier: quick
-//@ cap: 900
+//@ cap: 800
 //@ also: C05
 //@ desc: Message::from_bytes glue around the bencode parser: total on every byte string of length 0..=64; a datagram is refused before parsing only if it does not start with 'd' or is shorter than the shortest well-formed KRPC message (25 bytes: an error with empty description and a 2-byte transaction id, d1:eli0e0:e1:t2:aa1:y1:ee); every other datagram is handed unchanged to the parser exactly once, a parser error becomes a decode error (no panic), and a parsed message is handed to from_serde_message exactly once (whose totality and field mapping are C05.O1a-g / C10.O1*)
 //@ bounds: datagram length symbolic 0..=64, contents symbolic; parser verdict symbolic (oracle); unwind 8
